@@ -138,6 +138,15 @@ class VRPTW:
         self.node_names.remove(depot_name)
         self.nodes.insert(0, depot)
         self.node_names.insert(0, depot_name)
+        # arcs are keyed by node position: re-key them for the new positions
+        def new_index(k):
+            if k == d_index:
+                return 0
+            return k + 1 if k < d_index else k
+        old_arcs = list(self.arcs.items())
+        self.arcs.clear()
+        for (i, j), arc in old_arcs:
+            self.arcs[(new_index(i), new_index(j))] = arc
         return
 
     def add_arc(self,
